@@ -2,3 +2,5 @@
 // objects / file names, or a file name (f_call_other's target kinds)
 void create () { seteuid (getuid ()); }
 mixed do_call (mixed target, string fn) { return call_other (target, fn); }
+// function pointers made by the generated objects and evaluated HERE, by another object
+mixed do_eval (function f) { return evaluate (f); }
